@@ -49,6 +49,69 @@ def _case(job: tuple) -> dict:
         shutil.rmtree(d, ignore_errors=True)
 
 
+_CHILD = ("import json, sys, logging; logging.disable(logging.CRITICAL)\n"
+          "from spsdk.utils.database import get_schema_file\n"
+          "print('RESULT' + json.dumps({f: get_schema_file(f) for f in sys.argv[1:]}, sort_keys=True))\n")
+
+
+def _schemas(repo: str, features: list, data: str, cache: str, disabled: bool = False) -> Any:
+    import json
+
+    env = {k: v for k, v in os.environ.items() if not k.startswith("SPSDK_")}
+    env.update(PYTHONPATH=repo, SPSDK_DATA_FOLDER=data, SPSDK_CACHE_FOLDER=cache, SPSDK_DEBUG_LOGGING_DISABLED="1")
+    if disabled:
+        env["SPSDK_CACHE_DISABLED"] = "1"
+    r = subprocess.run([sys.executable, "-c", _CHILD, *features], capture_output=True, text=True, env=env, timeout=600)
+    line = [ln for ln in r.stdout.splitlines() if ln.startswith("RESULT")]
+    if r.returncode or not line:
+        return f"process failed: exit={r.returncode} {r.stderr[-300:]}"
+    return json.loads(line[-1][6:])
+
+
+def _edited_data_under_warm_cache(repo: str) -> dict:
+    """A data file is edited while a warm configuration cache exists: every later process - whichever file it asks for first - must answer
+    with the new content (oracle: a process with the cache disabled), and the cache left behind must not hold the old content."""
+    work = tempfile.mkdtemp(prefix="vf-c18-stale-")
+    fails: list = []
+    n = 0
+    try:
+        data = os.path.join(work, "data")
+        shutil.copytree(os.path.join(repo, "spsdk", "data"), data)
+        tz_file = os.path.join(data, "jsonschemas", "sch_tz.yaml")
+        for order in (["general", "tz"], ["tz"], ["tz", "general"]):
+            n += 1
+            cache = os.path.join(work, "cache" + str(n))
+            text0 = open(tz_file, encoding="utf-8").read()
+            try:
+                first = _schemas(repo, ["general", "tz"], data, cache)                      # warm: both files cached
+                marker = f"edited_by_check_{n}.bin"
+                open(tz_file, "w", encoding="utf-8").write(text0.replace("my_tz_file.bin", marker))
+                st = os.stat(tz_file)
+                os.utime(tz_file, ns=(st.st_atime_ns, st.st_mtime_ns + 5_000_000_000))
+                ref = _schemas(repo, ["general", "tz"], data, os.path.join(work, "ref" + str(n)), disabled=True)
+                problems = []
+                if isinstance(first, str) or isinstance(ref, str) or marker not in str(ref.get("tz")):
+                    problems.append(f"cannot build the scenario: {str(first)[:100]} / {str(ref)[:100]}")
+                else:
+                    second = _schemas(repo, order, data, cache)
+                    third = _schemas(repo, ["tz"], data, cache)
+                    for name, got in (("first process after the edit", second), ("a later process", third)):
+                        if isinstance(got, str):
+                            problems.append(f"{name}: {got}")
+                        elif got.get("tz") != ref["tz"]:
+                            problems.append(f"{name} (asks {order if got is second else ['tz']}) answers with the OLD content of the edited file")
+                if problems:
+                    fails.append({"inputs": {"warm_cache": ["general", "tz"], "edited": "jsonschemas/sch_tz.yaml", "next_process_asks": order},
+                                  "detail": "; ".join(problems), "obligation": "edited-data-file-is-never-answered-from-a-stale-cache"})
+            finally:
+                open(tz_file, "w", encoding="utf-8").write(text0)
+    finally:
+        shutil.rmtree(work, ignore_errors=True)
+    return {"name": "data file edited under a warm configuration cache", "function": "spsdk.utils.database:Database.DatabaseData (fresh interpreters)",
+            "method": "copy of spsdk/data, warm the cache with two files, edit one (mtime moved), start processes asking in different orders; oracle = cache disabled",
+            "bound": f"{n} orders", "cases": n, "label": "bounded", "failures": fails}
+
+
 def run(tier: str, seed: int, reg: Any, jobs: int = 16) -> list:
     repo = os.environ.get("VF_REPO", "/repo")
     master = tempfile.mkdtemp(prefix="vf-c18-master-")
@@ -76,7 +139,8 @@ def run(tier: str, seed: int, reg: Any, jobs: int = 16) -> list:
             if not r["ok"] and len(fails) < 5:
                 fails.append({"inputs": {"cache_file": r["file"], "truncated_to": r["length"]}, "detail": r["detail"],
                               "obligation": "start-normally-on-truncated-cache"})
-        return [{"name": "real cache files truncated at byte-exact prefixes", "function": "spsdk.utils.database (fresh interpreter per case)",
+        stale = _edited_data_under_warm_cache(repo)
+        return [stale, {"name": "real cache files truncated at byte-exact prefixes", "function": "spsdk.utils.database (fresh interpreter per case)",
                  "method": "truncate each real cache file, start SPSDK, compare answers with the cache-disabled oracle, start again",
                  "bound": f"{len(tasks)} prefix lengths over {len(files)} cache files", "cases": len(tasks), "label": "bounded", "failures": fails}]
     finally:
